@@ -1230,6 +1230,15 @@ def hist_fallback_after_rollback(st, cw, sb, rng, hs):
                 'tags': ['script:all_manifests_lost', 'user:recreate', 'manifests_removed:%d' % n]}
     return None
 
+def hist_shrink_then_rollbacks(st, cw, sb, rng, hs):
+    """S0 with an extra prompt; S1 without it (its file is deleted); rollback to S0 brings it back — the head is S0 now —
+    and rollback to S1 must remove it again (what the HEAD lists beyond S1), then once more back and forth"""
+    if st == 0: cw.add_prompt(); cw.write(); return {'kind': 'deploy', 'adopt': False, 'flt': None, 'entry': 'cli_json', 'tags': ['script:all_plus_prompt']}
+    if st == 1: cw.modules[-1]['enabled'] = False; cw.write(); return {'kind': 'deploy', 'adopt': False, 'flt': None, 'entry': rng.choice(['cli_json', 'mcp']), 'tags': ['script:without_prompt']}
+    if st in (2, 4): return {'kind': 'rollback', 'to': 0, 'tags': ['script:rollback_to_S0']}
+    if st in (3, 5): return {'kind': 'rollback', 'to': 1, 'tags': ['script:rollback_to_S1']}
+    return None
+
 def hist_drift_then_deploy(st, cw, sb, rng, hs):
     """S0; the user edits a deployed file; the module changes and S1 rewrites that file; rollback to S0 brings back
     S0's bytes (from the snapshot's own copy, not from the backup S1 took of the drifted file)"""
@@ -1745,9 +1754,10 @@ def oracle_rollback(ctx, props, hs, ordn, before, after, sb, base, rec):
             cls = 'K6a'
         elif any(sn['flt'] is not None for sn in later) and p not in s_paths and p not in {d['path'] for d in H['D']}:
             cls = 'K6a'
-        elif p not in s_paths and want is not None and got is None and p in {d['path'] for d in H['D']}:
-            # class K6d: right after S the file lay on disk UNMANAGED (S does not list it: its root was switched off at S),
-            # the head manages it, so rollback — which deletes what the head lists beyond S — removes it
+        elif p not in s_paths and want is not None:
+            # class K6d: right after S the file lay on disk UNMANAGED (S does not list it: its root was switched off at S).
+            # Rollback restores what S records and deletes what the head lists beyond S: such a path, once a later
+            # deployment or rollback has touched it, is deleted or stays as it is — it does not get back its content at S
             cls = 'K6d'
         what = 'after rollback %s differs from its state right after the snapshot (%s)' % (p, 'absent then' if want is None else ('missing now' if got is None else 'other bytes'))
         r2 = dict(rec, path=p, cls=cls)
@@ -1795,7 +1805,7 @@ KNOWN_TEXT = {
     'K6a': 'rollback across target-filtered deploys / bootstraps: files of targets the chosen or the head snapshot does not cover are deleted or left behind',
     'K6b': 'rollback after an adopt: the adopted user file is deleted instead of restored to its pre-adopt content',
     'K6c': 'rollback leaves behind a manifest that was first written after the chosen snapshot',
-    'K6d': 'rollback to S deletes a file that lay on disk unmanaged right after S (its root was switched off at S, the file left behind) when the current head manages it again',
+    'K6d': 'a file that lay on disk unmanaged right after S (its root was switched off at S, the file left behind) and that a later deployment or rollback touched does not get back its content at S: rollback deletes it when the head manages it again, and cannot restore it afterwards',
     'K15a': 'bootstrap and deploy sharing a root rewrite the manifest from their own desired state only: files written by the other command drop out of the manifest',
     'K15c': 'evolve restore writes a missing desired file without recording it in the manifest',
     'K15d': 'rollback while a bootstrap is the head: files a deploy wrote after the chosen snapshot stay on disk (the bootstrap head does not record them) but the restored manifests do not list them (same mechanism as K6a)',
